@@ -65,7 +65,8 @@ def canon(name, p):
     if name in ("lits", "norinori"):
         return (p[0], p[1], K.canon_rooms(p[2]))
     if name == "heyawake":
-        return (p[0], p[1], sorted((sorted(map(tuple, r)), c) for r, c in zip(p[2][0], p[2][1])))
+        # pairing by position; the lengths are part of the problem (zip alone would hide surplus clues)
+        return (p[0], p[1], len(p[2][0]), list(p[2][1])[len(p[2][0]):], sorted((sorted(map(tuple, r)), c) for r, c in zip(p[2][0], p[2][1])))
     if name == "compass":
         return (p[0], p[1], sorted(p[2]))
     return p
@@ -131,6 +132,15 @@ def judge_decode(ctx, name, text, origin):
     except Exception as e:
         ctx.violation(f"malformed-problem:{type(e).__name__}:{name}:{cls}", f"returned object is not a problem of the module's format: {e!r}", w)
         return
+    if name == "heyawake":
+        try:
+            nr, nc = len(p[2][0]), len(p[2][1])
+        except Exception as e:
+            ctx.violation(f"malformed-problem:{type(e).__name__}:{name}:{cls}", f"returned object is not a problem of the module's format: {e!r}", w)
+            return
+        if nr != nc:
+            ctx.violation(f"malformed-problem:clue-count:{name}", f"{nr} rooms but {nc} clues (a problem has one clue entry per room)", w)
+            return
     # re-encodable, and canonical text decodes to the same problem
     if m is not None and int(m[2]) * int(m[3]) > 100000:
         ctx.count("c17.reencode_skipped_huge_board")  # sparse formats (compass) accept boards of 10^7 cells from a 50-character text
@@ -180,6 +190,12 @@ def mutate(rng, url, others):
         i = rng.randrange(max(len(url) - 12, 0), len(url) + 1) if rng.random() < 0.7 else rng.randrange(len(url) + 1)
         tok = rng.choice(["--1", "-+1", "+-12", "+ 12", "-_1", "-1_", "+1_0", "- 1", "-\u00a01", "-１0", "+００1", "-0x", "+0x1", "--", "++", "-", "+"])
         return url[:i] + tok + url[i + (len(tok) if rng.random() < 0.5 else 0):]
+    if m is not None and rng.random() < 0.10:
+        # over- / under-run at the END of the body: a longer final blank run, one more value token, a final token cut short
+        body = m[4]
+        tail = rng.choice(["z", "y", "k", "h", "g", "0", "1", "f", "-10", "+100", ".", "%", "zz", "5z", "a"])
+        cut = rng.choice([0, 0, 1, 2])
+        return url[:m.start(4)] + body[:len(body) - cut] + tail
     if k < 0.12 and len(url) > 1:
         return url[:rng.randrange(len(url))]
     if k < 0.24 and url:
